@@ -18,6 +18,8 @@ type Set struct {
 	// refers to it: every name and import denotes the module of the set, which carries a later revision.
 	Older      string `json:"older_revision_of,omitempty"`
 	OlderFirst bool   `json:"older_first,omitempty"`
+	// Extra: further texts loaded after the others (e.g. an older, empty revision of a deviating module).
+	Extra []Source `json:"extra_texts,omitempty"`
 }
 
 // OlderText is the text of the older revision (nil if there is none).
@@ -514,7 +516,7 @@ func (s *Set) Texts() []Source {
 			out = append(out, *o)
 		}
 	}
-	return out
+	return append(out, s.Extra...)
 }
 
 // ModuleTexts are the texts of the modules of the set proper, in model order.
